@@ -338,6 +338,7 @@ async fn pool_is_swept_after_a_block() {
         // the block carries some of the pooled transactions (their inputs are spent by it: mark them spent in the index)
         let mut block = Block::new();
         block.hash = [7u8; 32];
+        block.in_longest_chain = true;   // (the block has just been wound onto the chain: a block merely stored next to it confirms nothing)
         let mut in_block: Vec<bool> = vec![];
         for (tx, ins) in pooled.iter() {
             let b = rng.below(3) == 0;
@@ -2736,4 +2737,505 @@ async fn fresh_node_receiving_a_later_block_first_still_converges() {
         "an empty node that fetched the peer's blocks 1..=4 in the order 3,1,2,4 holds all 4 blocks but its tip is block {} and not the peer's tip block 4 (C15: the node ends on the peer's tip under every delivery order of the fetched blocks)",
         blockchain.get_latest_block_id()
     );
+}
+
+/// C02: the payouts a golden ticket triggers are made — a block that carries the ticket but leaves out the fee transaction its own
+/// payout computation produces is refused (the fees of the blocks being paid would be in no output, treasury or graveyard) — scenario
+/// of an independent audit
+#[allow(dead_code)]
+/// value the ledger holds once `block` is the tip, in unbounded arithmetic: spendable outputs now,
+/// plus what the block's transactions add and remove, plus the reservoirs in the block's header
+fn audit_demo_supply_with_tip(blockchain: &Blockchain, block: Option<&Block>) -> u128 {
+    let mut supply: u128 = 0;
+    for (key, spendable) in blockchain.utxoset.iter() {
+        if *spendable {
+            let slip = Slip::parse_slip_from_utxokey(key).unwrap();
+            if slip.slip_type != crate::core::consensus::slip::SlipType::Bound {
+                supply += slip.amount as u128;
+            }
+        }
+    }
+    let tip = match block {
+        Some(block) => {
+            for tx in block.transactions.iter() {
+                for output in tx.to.iter() {
+                    supply += output.amount as u128;
+                }
+                for input in tx.from.iter() {
+                    supply -= input.amount as u128;
+                }
+            }
+            block
+        }
+        None => blockchain.get_latest_block().unwrap(),
+    };
+    supply
+        + tip.treasury as u128
+        + tip.graveyard as u128
+        + tip.previous_block_unpaid as u128
+        + tip.total_fees as u128
+}
+
+#[tokio::test]
+#[serial_test::serial]
+async fn golden_ticket_block_without_its_fee_transaction_is_refused() {
+    #[allow(unused_imports)] use std::ops::Deref;
+    #[allow(unused_imports)] use ahash::AHashMap;
+    #[allow(unused_imports)] use crate::core::consensus::wallet::Wallet;
+    #[allow(unused_imports)] use crate::core::util::test::test_manager::test::TestManager;
+    #[allow(unused_imports)] use crate::core::consensus::block::Block;
+    #[allow(unused_imports)] use crate::core::consensus::blockchain::AddBlockResult;
+    #[allow(unused_imports)] use crate::core::util::crypto::hash;
+    #[allow(unused_imports)] use std::panic::AssertUnwindSafe;
+    use crate::core::consensus::transaction::{Transaction, TransactionType};
+    use crate::core::defs::SaitoSignature;
+
+    let mut t = TestManager::default();
+    t.initialize(10, 1_000_000).await;
+    let block1_hash = t.latest_block_hash;
+    let ts = t.get_latest_block().await.timestamp;
+
+    // block 2 : one transaction paying a fee of 1000, no golden ticket
+    let block2 = t
+        .create_block(block1_hash, ts + 120_000, 1, 5_000, 1_000, false)
+        .await;
+    let block2_hash = block2.hash;
+    let result = t.add_block(block2).await;
+    assert!(matches!(
+        result,
+        AddBlockResult::BlockAddedSuccessfully(_, true, _)
+    ));
+    let supply_before;
+    {
+        let blockchain = t.blockchain_lock.read().await;
+        assert_eq!(blockchain.get_latest_block_id(), 2);
+        assert_eq!(blockchain.get_latest_block().unwrap().total_fees, 1_000);
+        supply_before = audit_demo_supply_with_tip(&blockchain, None);
+        assert_eq!(supply_before, 10_000_000);
+    }
+
+    // block 3 as an honest producer builds it : golden ticket for block 2 and the fee transaction
+    // that pays block 2's fees out
+    let (public_key, private_key) = {
+        let wallet = t.wallet_lock.read().await;
+        (wallet.public_key, wallet.private_key)
+    };
+    let golden_ticket = {
+        let difficulty = t.get_latest_block().await.difficulty;
+        TestManager::create_golden_ticket(t.wallet_lock.clone(), block2_hash, difficulty).await
+    };
+    let gt_tx =
+        Wallet::create_golden_ticket_transaction(golden_ticket, &public_key, &private_key)
+            .await;
+    let mut honest_block3 = {
+        let configs = t.config_lock.read().await;
+        let blockchain = t.blockchain_lock.read().await;
+        let mut transactions: ahash::AHashMap<SaitoSignature, Transaction> = Default::default();
+        Block::create(
+            &mut transactions,
+            block2_hash,
+            &blockchain,
+            ts + 240_000,
+            &public_key,
+            &private_key,
+            Some(gt_tx),
+            configs.deref(),
+            &t.storage,
+        )
+        .await
+        .unwrap()
+    };
+    honest_block3.generate().unwrap();
+    let fee_tx = honest_block3.transactions.last().unwrap().clone();
+    assert_eq!(fee_tx.transaction_type, TransactionType::Fee);
+    let paid_out: u64 = fee_tx.to.iter().map(|slip| slip.amount).sum();
+    assert!(paid_out > 0);
+
+    // the hostile variant : the same block with the fee transaction left out, re-signed
+    let mut hostile_block3 = honest_block3.clone();
+    hostile_block3.transactions.pop();
+    hostile_block3.merkle_root = hostile_block3.generate_merkle_root(false, false);
+    hostile_block3.generate_pre_hash();
+    hostile_block3.sign(&private_key);
+    hostile_block3.generate().unwrap();
+
+    let (honest_valid, honest_supply, hostile_valid, hostile_supply);
+    {
+        let configs = t.config_lock.read().await;
+        let blockchain = t.blockchain_lock.read().await;
+        honest_valid = honest_block3
+            .validate(&blockchain, &blockchain.utxoset, configs.deref(), &t.storage, true)
+            .await;
+        honest_supply = audit_demo_supply_with_tip(&blockchain, Some(&honest_block3));
+        hostile_valid = hostile_block3
+            .validate(&blockchain, &blockchain.utxoset, configs.deref(), &t.storage, true)
+            .await;
+        hostile_supply = audit_demo_supply_with_tip(&blockchain, Some(&hostile_block3));
+    }
+    // control : the honest block validates and conserves the supply
+    assert!(honest_valid);
+    assert_eq!(honest_supply, supply_before);
+
+    // the node itself : add_block accepts the block and then aborts in check_total_supply
+    let outcome = futures::FutureExt::catch_unwind(std::panic::AssertUnwindSafe(
+        t.add_block(hostile_block3),
+    ))
+    .await;
+    let node_reaction = match &outcome {
+        Ok(AddBlockResult::BlockAddedSuccessfully(..)) => "add_block accepted it",
+        Ok(_) => "add_block refused it",
+        Err(_) => "add_block accepted it and the node then panicked in check_total_supply",
+    };
+
+    if !(!hostile_valid || hostile_supply == supply_before) { witness(format!("block 3 carries a golden ticket but no fee transaction and Block::validate accepted it ({}): the {} nolan of block 2's fees it was due to pay out are in no output, treasury or graveyard, the supply falls from {} to {}", node_reaction, paid_out, supply_before, hostile_supply)); }
+}
+
+/// C11/C14: an unsigned, never validated side-chain block from a peer does not delete pooled transactions or the node's golden
+/// ticket — scenario of an independent audit
+#[tokio::test]
+#[serial_test::serial]
+async fn side_chain_block_takes_nothing_out_of_the_pool() {
+    #[allow(unused_imports)] use crate::core::util::crypto::generate_keys;
+    #[allow(unused_imports)] use crate::core::consensus::wallet::Wallet;
+    #[allow(unused_imports)] use crate::core::util::test::test_manager::test::TestManager;
+    #[allow(unused_imports)] use crate::core::consensus::block::Block;
+    #[allow(unused_imports)] use crate::core::consensus::blockchain::AddBlockResult;
+    #[allow(unused_imports)] use crate::core::defs::SaitoHash;
+    #[allow(unused_imports)] use crate::core::util::crypto::hash;
+    use crate::core::consensus::block::BlockType;
+    use crate::core::consensus::golden_ticket::GoldenTicket;
+    use crate::core::consensus::transaction::{Transaction, TransactionType};
+
+    let mut t = TestManager::default();
+    t.initialize(100, 200_000_000_000_000).await;
+    let block1 = t.get_latest_block().await;
+
+    // honest block 2 : the tip
+    let block2 = t
+        .create_block(block1.hash, block1.timestamp + 120000, 0, 0, 0, true)
+        .await;
+    let block2_hash = block2.hash;
+    let block2_ts = block2.timestamp;
+    let block2_difficulty = block2.difficulty;
+    let result = t.add_block(block2).await;
+    assert!(matches!(
+        result,
+        AddBlockResult::BlockAddedSuccessfully(_, true, _)
+    ));
+
+    // an honest user's transaction and this node's golden ticket for the tip are pending in the mempool
+    let (public_key, private_key) = {
+        let wallet = t.wallet_lock.read().await;
+        (wallet.public_key, wallet.private_key)
+    };
+    let pending_signature;
+    {
+        let mut tx = {
+            let mut wallet = t.wallet_lock.write().await;
+            Transaction::create(&mut wallet, public_key, 1_000, 500, false, None, 2, 100)
+                .unwrap()
+        };
+        tx.sign(&private_key);
+        tx.generate(&public_key, 0, 0);
+        pending_signature = tx.signature;
+        let golden_ticket =
+            TestManager::create_golden_ticket(t.wallet_lock.clone(), block2_hash, block2_difficulty)
+                .await;
+        let gt_tx =
+            Wallet::create_golden_ticket_transaction(golden_ticket, &public_key, &private_key)
+                .await;
+
+        let blockchain = t.blockchain_lock.read().await;
+        let mut mempool = t.mempool_lock.write().await;
+        mempool.add_transaction_if_validates(tx, &blockchain).await;
+        mempool.add_golden_ticket(gt_tx).await;
+        assert!(mempool.transactions.contains_key(&pending_signature));
+        assert!(mempool.golden_tickets.contains_key(&block2_hash));
+    }
+
+    // the attacker's block: not signed at all, its "transactions" carry nothing but the signature of
+    // the pending transaction (public: transactions are relayed) and a golden ticket payload that
+    // names the tip as its target
+    let (atk_public_key, _) = generate_keys();
+    let make_block = |id: u64, parent: SaitoHash, ts: u64| {
+        let mut block = Block::new();
+        block.id = id;
+        block.previous_block_hash = parent;
+        block.timestamp = ts;
+        block.creator = atk_public_key;
+        let mut fake = Transaction::default();
+        fake.signature = pending_signature;
+        block.transactions.push(fake);
+        let mut fake_gt = Transaction::default();
+        fake_gt.transaction_type = TransactionType::GoldenTicket;
+        fake_gt.data =
+            GoldenTicket::create(block2_hash, [0; 32], atk_public_key).serialize_for_net();
+        fake_gt.signature = [7; 64];
+        block.transactions.push(fake_gt);
+        block.generate().unwrap();
+        // (no block.sign : the signature stays [0; 64])
+        let buffer = block.serialize_for_net(BlockType::Full);
+        let mut block = Block::deserialize_from_net(&buffer).expect("the buffer is decodable");
+        block.generate().expect("metadata of the fetched block generates");
+        block
+    };
+
+    // control: claiming to extend the tip, the block is validated and refused; the mempool is untouched
+    let control = make_block(3, block2_hash, block2_ts + 120000);
+    let result = t.add_block(control).await;
+    assert!(
+        matches!(result, AddBlockResult::FailedNotValid),
+        "control: the unsigned block on top of the tip is refused, got {:?}",
+        result
+    );
+    {
+        let mempool = t.mempool_lock.read().await;
+        assert!(mempool.transactions.contains_key(&pending_signature));
+        assert!(mempool.golden_tickets.contains_key(&block2_hash));
+    }
+
+    // hostile: the same block as a sibling of the tip (id 2 on top of block 1)
+    let hostile = make_block(2, block1.hash, block2_ts + 1);
+    let hostile_hash = hostile.hash;
+    let result = t.add_block(hostile).await;
+    {
+        let blockchain = t.blockchain_lock.read().await;
+        assert_eq!(
+            blockchain.get_latest_block_hash(),
+            block2_hash,
+            "setup: the tip does not move"
+        );
+        assert!(
+            !blockchain
+                .blocks
+                .get(&hostile_hash)
+                .map(|b| b.in_longest_chain)
+                .unwrap_or(false),
+            "setup: the hostile block is not part of the longest chain"
+        );
+    }
+    let mempool = t.mempool_lock.read().await;
+    if !(mempool.transactions.contains_key(&pending_signature)
+            && mempool.golden_tickets.contains_key(&block2_hash)) { witness(format!("an unsigned, never validated side-chain block 2' from a peer (add_block -> {:?}) deleted from the mempool the pending user transaction (still pooled: {}) and this node's golden ticket for the tip (still pooled: {}), because add_block_success runs remove_block_transactions for blocks that were never validated: hostile input must leave the state honest peers rely on unchanged (the same block on top of the tip was refused and changed nothing)", result, mempool.transactions.contains_key(&pending_signature), mempool.golden_tickets.contains_key(&block2_hash))); }
+}
+
+/// C11: a decodable block whose transactions claim inputs of u64::MAX is refused like any invalid block (the consensus-value sums
+/// saturate) — scenario of an independent audit
+#[tokio::test]
+#[serial_test::serial]
+async fn block_with_overflowing_fee_claims_is_refused_not_fatal() {
+    #[allow(unused_imports)] use crate::core::util::crypto::generate_keys;
+    #[allow(unused_imports)] use crate::core::util::test::test_manager::test::TestManager;
+    #[allow(unused_imports)] use crate::core::consensus::slip::Slip;
+    #[allow(unused_imports)] use crate::core::consensus::block::Block;
+    #[allow(unused_imports)] use crate::core::consensus::blockchain::AddBlockResult;
+    #[allow(unused_imports)] use crate::core::consensus::blockchain::Blockchain;
+    #[allow(unused_imports)] use crate::core::util::crypto::hash;
+    #[allow(unused_imports)] use std::panic::AssertUnwindSafe;
+    use crate::core::consensus::block::BlockType;
+    use crate::core::consensus::slip::SlipType;
+    use crate::core::consensus::transaction::{Transaction, TransactionType};
+    use futures::FutureExt;
+
+    let mut t = TestManager::default();
+    t.initialize(100, 200_000_000_000_000).await;
+    let block1 = t.get_latest_block().await;
+
+    // honest block 2 on top
+    let block2 = t
+        .create_block(block1.hash, block1.timestamp + 120000, 0, 0, 0, true)
+        .await;
+    let block2_hash = block2.hash;
+    let block2_ts = block2.timestamp;
+    let result = t.add_block(block2).await;
+    assert!(
+        matches!(result, AddBlockResult::BlockAddedSuccessfully(_, true, _)),
+        "setup: honest block 2 should be accepted, got {:?}",
+        result
+    );
+
+    // the block producer is the attacker: any key will do, the block only has to be signed by it
+    let (atk_public_key, atk_private_key) = generate_keys();
+
+    // builds the attacker's block 3 (child of the tip) out of `count` transactions that each
+    // name one input of `amount` nolan (inputs that do not exist: the block is invalid either way)
+    let make_block = |count: u64, amount: u64| {
+        let mut block = Block::new();
+        block.id = 3;
+        block.previous_block_hash = block2_hash;
+        block.timestamp = block2_ts + 120000;
+        block.creator = atk_public_key;
+        for n in 0..count {
+            let mut tx = Transaction::default();
+            tx.transaction_type = TransactionType::Normal;
+            tx.timestamp = block.timestamp;
+            let mut input = Slip::default();
+            input.public_key = atk_public_key;
+            input.amount = amount;
+            input.block_id = 1;
+            input.tx_ordinal = 1000 + n; // distinct outputs: no double spend inside the block
+            input.slip_index = 0;
+            input.slip_type = SlipType::Normal;
+            tx.from.push(input);
+            let mut output = Slip::default();
+            output.public_key = atk_public_key;
+            output.amount = 0;
+            tx.to.push(output);
+            tx.sign(&atk_private_key);
+            block.transactions.push(tx);
+        }
+        block.generate().unwrap();
+        block.sign(&atk_private_key);
+        // what the peer serves and what VerificationThread::verify_block makes of it
+        let buffer = block.serialize_for_net(BlockType::Full);
+        let mut block = Block::deserialize_from_net(&buffer).expect("the buffer is decodable");
+        block.generate().expect("metadata of the fetched block generates");
+        block
+    };
+
+    // control: the same block with small claimed inputs is simply rejected
+    let control = make_block(2, 1_000);
+    let control_hash = control.hash;
+    let result = t.add_block(control).await;
+    assert!(
+        matches!(result, AddBlockResult::FailedNotValid),
+        "control: a block spending outputs that do not exist should be rejected, got {:?}",
+        result
+    );
+    {
+        let blockchain = t.blockchain_lock.read().await;
+        assert!(!blockchain.blocks.contains_key(&control_hash));
+        assert_eq!(blockchain.get_latest_block_hash(), block2_hash);
+    }
+
+    // hostile: two transactions each claiming an input of u64::MAX nolan
+    let hostile = make_block(2, u64::MAX);
+    assert_eq!(hostile.transactions[0].total_fees, u64::MAX);
+    let outcome = std::panic::AssertUnwindSafe(t.add_block(hostile))
+        .catch_unwind()
+        .await;
+    let panic_text = match &outcome {
+        Ok(_) => String::new(),
+        Err(payload) => payload
+            .downcast_ref::<String>()
+            .cloned()
+            .or_else(|| payload.downcast_ref::<&str>().map(|s| s.to_string()))
+            .unwrap_or_default(),
+    };
+    if !(outcome.is_ok()) { witness(format!("a decodable block 3 fetched from a peer, whose 2 transactions each claim an input of u64::MAX nolan, made Blockchain::add_block panic ('{}', Block::generate_consensus_values sums the fees of unvalidated transactions with `+=`) instead of being rejected like the control block: peer input must not crash the consensus thread", panic_text)); }
+    assert!(matches!(outcome.unwrap(), AddBlockResult::FailedNotValid));
+}
+
+/// C11: fork blocks whose burnfee header fields are u64::MAX do not stop the node in the fork choice (the sums saturate) — scenario
+/// of an independent audit
+#[tokio::test]
+#[serial_test::serial]
+async fn fork_blocks_with_overflowing_burn_fees_are_refused_not_fatal() {
+    #[allow(unused_imports)] use crate::core::util::crypto::generate_keys;
+    #[allow(unused_imports)] use crate::core::util::test::test_manager::test::TestManager;
+    #[allow(unused_imports)] use crate::core::consensus::block::Block;
+    #[allow(unused_imports)] use crate::core::consensus::blockchain::AddBlockResult;
+    #[allow(unused_imports)] use crate::core::consensus::blockchain::Blockchain;
+    #[allow(unused_imports)] use crate::core::defs::SaitoHash;
+    #[allow(unused_imports)] use crate::core::util::crypto::hash;
+    #[allow(unused_imports)] use std::panic::AssertUnwindSafe;
+    use crate::core::consensus::block::BlockType;
+    use futures::FutureExt;
+
+    let mut t = TestManager::default();
+    t.initialize(100, 200_000_000_000_000).await;
+    let block1 = t.get_latest_block().await;
+
+    // honest chain : 1 - 2 - 3
+    let block2 = t
+        .create_block(block1.hash, block1.timestamp + 120000, 0, 0, 0, true)
+        .await;
+    let block2_hash = block2.hash;
+    let block2_ts = block2.timestamp;
+    let result = t.add_block(block2).await;
+    assert!(matches!(
+        result,
+        AddBlockResult::BlockAddedSuccessfully(_, true, _)
+    ));
+    let block3 = t
+        .create_block(block2_hash, block2_ts + 120000, 0, 0, 0, true)
+        .await;
+    let block3_hash = block3.hash;
+    let result = t.add_block(block3).await;
+    assert!(matches!(
+        result,
+        AddBlockResult::BlockAddedSuccessfully(_, true, _)
+    ));
+
+    let (atk_public_key, atk_private_key) = generate_keys();
+    // a header-only block as a peer would serve it: id, parent and burnfee are the sender's choice
+    let make_block = |id: u64, parent: SaitoHash, ts: u64, burnfee: u64| {
+        let mut block = Block::new();
+        block.id = id;
+        block.previous_block_hash = parent;
+        block.timestamp = ts;
+        block.creator = atk_public_key;
+        block.burnfee = burnfee;
+        block.generate().unwrap();
+        block.sign(&atk_private_key);
+        let buffer = block.serialize_for_net(BlockType::Full);
+        let mut block = Block::deserialize_from_net(&buffer).expect("the buffer is decodable");
+        block.generate().expect("metadata of the fetched block generates");
+        block
+    };
+
+    // control: a two-block fork 3' - 4' with small burnfees is stored / refused without any harm
+    let fork3 = make_block(3, block2_hash, block2_ts + 130000, 1_000);
+    let fork3_hash = fork3.hash;
+    let result = t.add_block(fork3).await;
+    assert!(
+        matches!(result, AddBlockResult::BlockAddedSuccessfully(_, false, _)),
+        "control: the sibling of the tip is stored as a side-chain block, got {:?}",
+        result
+    );
+    let fork4 = make_block(4, fork3_hash, block2_ts + 260000, 1_000);
+    let result = t.add_block(fork4).await;
+    assert!(
+        matches!(
+            result,
+            AddBlockResult::FailedNotValid | AddBlockResult::BlockAddedSuccessfully(_, false, _)
+        ),
+        "control: the fork is refused or kept as a side chain, got {:?}",
+        result
+    );
+    {
+        let blockchain = t.blockchain_lock.read().await;
+        assert_eq!(blockchain.get_latest_block_hash(), block3_hash);
+    }
+
+    // hostile: the same two-block fork, burnfee header fields set to u64::MAX
+    let fork3 = make_block(3, block2_hash, block2_ts + 131000, u64::MAX);
+    let fork3_hash = fork3.hash;
+    let result = t.add_block(fork3).await;
+    assert!(
+        matches!(result, AddBlockResult::BlockAddedSuccessfully(_, false, _)),
+        "setup: the sibling of the tip is stored as a side-chain block, got {:?}",
+        result
+    );
+    let fork4 = make_block(4, fork3_hash, block2_ts + 261000, u64::MAX);
+    let outcome = std::panic::AssertUnwindSafe(t.add_block(fork4))
+        .catch_unwind()
+        .await;
+    let panic_text = match &outcome {
+        Ok(_) => String::new(),
+        Err(payload) => payload
+            .downcast_ref::<String>()
+            .cloned()
+            .or_else(|| payload.downcast_ref::<&str>().map(|s| s.to_string()))
+            .unwrap_or_default(),
+    };
+    if !(outcome.is_ok()) { witness(format!("two decodable fork blocks 3' and 4' from a peer whose burnfee header fields are u64::MAX made Blockchain::add_block panic ('{}' in is_new_chain_the_longest_chain, which adds up the burnfees of unvalidated fork blocks with `+=`) instead of refusing the fork like the control fork with burnfee 1000: peer input must not crash the consensus thread", panic_text)); }
+    assert!(matches!(
+        outcome.unwrap(),
+        AddBlockResult::FailedNotValid | AddBlockResult::BlockAddedSuccessfully(_, false, _)
+    ));
+    {
+        let blockchain = t.blockchain_lock.read().await;
+        assert_eq!(blockchain.get_latest_block_hash(), block3_hash);
+    }
 }
